@@ -180,6 +180,41 @@ def constants():
     t += "/-- every shipped word list as loaded: (registry/language, words, SHA-256 of the \"\\n\"-joined words); the translator\n"
     t += "    refuses a list with a duplicate, empty, blank-holding or non-NFKD word -/\n"
     t += "def WORDLISTS : List (String × Nat × String) := [" + ",\n  ".join(f"(\"{n}\", {k}, \"{h}\")" for n, k, h in rows) + "]\n"
+    # electrum: the candidate search of mnemonic_from_entropy and the BIP39 skip rule (Electrum's bip39_is_checksum_valid)
+    src = _src(electrum, "_is_bip39_mnemonic")
+    m_wc = re.search(r"if len\(words\) not in \{([\d, ]+)\}:\s+return False", src)
+    m_cs = re.search(r"checksum_bits = (\d+) \* len\(words\) // (\d+)\b", src)
+    m_by = re.search(r"bytes_entropy = \(int_entropy >> checksum_bits\)\.to_bytes\((\d+) \* checksum_bits, 'big'\)", src)
+    m_cmp = re.search(r"return int_entropy % \(1 << checksum_bits\) == hashed >> (\d+) - checksum_bits", src)
+    if not (m_wc and m_cs and m_by and m_cmp) or "int_entropy = int_entropy * base + index" not in src \
+            or "hashed = int.from_bytes(sha256(bytes_entropy).digest(), byteorder='big')" not in src \
+            or "base = ELECTRUM_WORDLISTS.language_length(lang)" not in src:
+        raise ValueError("electrum._is_bip39_mnemonic: unexpected shape")
+    t += "/-- `electrum._is_bip39_mnemonic`: word counts asked at all; checksum bits = EL_CS_NUM * words // EL_CS_DEN; entropy on\n"
+    t += "    EL_CS_BYTES * checksum_bits bytes; compared with the top bits of an EL_HASH_BITS-bit hash -/\n"
+    t += f"def EL_BIP39_WORDS : List Nat := {_nat_list(sorted(int(x) for x in m_wc.group(1).split(',')))}\n"
+    t += f"def EL_CS_NUM : Nat := {int(m_cs.group(1))}\ndef EL_CS_DEN : Nat := {int(m_cs.group(2))}\n"
+    t += f"def EL_CS_BYTES : Nat := {int(m_by.group(1))}\ndef EL_HASH_BITS : Nat := {int(m_cmp.group(1))}\n"
+    src = _src(electrum, "_search_mnemonic")
+    shape = ("nonce = 0", "while True:", "nonce += 1", "candidate = int_entropy + nonce",
+             "mnemonic = _mnemonic_from_int_entropy(candidate, lang)",
+             "if candidate != int(_bin_str_entropy_from_mnemonic(mnemonic, lang), 2):",
+             "if _is_old_mnemonic(mnemonic) or _is_bip39_mnemonic(mnemonic, lang):\n            continue",
+             "if _seed_version(mnemonic).startswith(version):\n            return mnemonic")
+    pos = [src.find(s) for s in shape]
+    m_n0, m_n1 = re.search(r"nonce = (\d+)\n", src), re.search(r"nonce \+= (\d+)\n", src)
+    if -1 in pos or pos != sorted(pos) or not m_n0 or not m_n1:
+        raise ValueError("electrum._search_mnemonic: unexpected shape of the candidate loop")
+    src = _src(electrum, "mnemonic_from_entropy")
+    shape = ("if mnemonic_type not in _MNEMONIC_VERSIONS:", "int(bin_str_entropy_from_entropy(entropy), 2)",
+             "mnemonic = _search_mnemonic(int_entropy, _MNEMONIC_VERSIONS[mnemonic_type], lang)",
+             "found = _mnemonic_type(mnemonic)", "if found != mnemonic_type:", "return mnemonic")
+    pos = [src.find(s) for s in shape]
+    if -1 in pos or pos != sorted(pos):
+        raise ValueError("electrum.mnemonic_from_entropy: unexpected shape (search, then the read-back check)")
+    t += "/-- `electrum._search_mnemonic`: the first candidate is int_entropy + SEARCH_FIRST, each next one SEARCH_STEP further\n"
+    t += "    (shape of the loop and of `mnemonic_from_entropy`'s read-back check verified by the translator) -/\n"
+    t += f"def SEARCH_FIRST : Nat := {int(m_n0.group(1)) + int(m_n1.group(1))}\ndef SEARCH_STEP : Nat := {int(m_n1.group(1))}\n"
     return t
 
 
